@@ -11,6 +11,7 @@ import (
 	"github.com/nspcc-dev/neo-go/pkg/core/interop/interopnames"
 	"github.com/nspcc-dev/neo-go/pkg/io"
 	"github.com/nspcc-dev/neo-go/pkg/smartcontract/callflag"
+	"github.com/nspcc-dev/neo-go/pkg/smartcontract/trigger"
 	"github.com/nspcc-dev/neo-go/pkg/util"
 	"github.com/nspcc-dev/neo-go/pkg/vm/emit"
 	"github.com/nspcc-dev/neo-go/pkg/vm/stackitem"
@@ -236,21 +237,31 @@ func runSyscalls(run *ev.Run, v *env) {
 	var mu sync.Mutex
 	halts := map[string][]string{}
 	names := map[string]bool{}
-	parallel(len(cases)*16, func(i int) {
-		c := cases[i/16]
+	// every cell under the Application trigger and again as witness verification
+	// code (trigger Verification): the flags of a context confine it whatever the
+	// execution is for
+	parallel(len(cases)*32, func(i int) {
+		c := cases[i/32]
 		f := callflag.CallFlag(i % 16)
-		id := fmt.Sprintf("syscall/%s/%s/f=%s", v.stage, c.id(), fstr(f))
+		trig, tname := trigger.Application, ""
+		if (i/16)%2 == 1 {
+			trig, tname = trigger.Verification, "/verification-trigger"
+		}
+		id := fmt.Sprintf("syscall/%s/%s/f=%s%s", v.stage, c.id(), fstr(f), tname)
 		if !run.Want(id) {
 			return
 		}
 		h := v.probes[0].Hash
-		o, err := v.run(&invocation{Script: c.Script, EntryFlags: f, AsHash: &h, Preload: c.Preload})
+		o, err := v.run(&invocation{Script: c.Script, EntryFlags: f, AsHash: &h, Preload: c.Preload, Trigger: trig})
 		if err != nil {
 			violation(v.stage, "panic-escaped-vm:syscall:"+c.Name, id, err.Error(), map[string]any{"script": hex.EncodeToString(c.Script)})
 			return
 		}
-		run.Case(fmt.Sprintf("syscall/%s/%s/f=%s/%s", v.stage, c.id(), fstr(f), o.summary(v.name)), o.Instrs > 0)
+		run.Case(fmt.Sprintf("syscall/%s/%s/f=%s%s/%s", v.stage, c.id(), fstr(f), tname, o.summary(v.name)), o.Instrs > 0)
 		cnt.add("cells", 1)
+		if trig == trigger.Verification {
+			cnt.add("cells_under_the_verification_trigger", 1)
+		}
 		if o.Halted {
 			cnt.add("halted", 1)
 		} else if strings.Contains(o.Fault, "missing call flags") {
@@ -262,7 +273,7 @@ func runSyscalls(run *ev.Run, v *env) {
 		report(run, v, o, id, map[string]any{"syscall": c.id(), "flags": fstr(f), "script": hex.EncodeToString(c.Script), "runs_as": "probeA"})
 		mu.Lock()
 		names[c.Name] = true
-		if o.Halted {
+		if o.Halted && trig == trigger.Application {
 			halts[c.id()] = append(halts[c.id()], fstr(f))
 		}
 		mu.Unlock()
